@@ -6,7 +6,7 @@ PROPS = {
     "C08": [("u_capt", "quick")],
     "C16": [("u_pkgallow", "quick"), ("u_orphan", "quick"), ("u_topo", "quick")],
     "C10": [("u_intlit", "quick"), ("u_dcefx", "quick")],
-    "C07": [("u_munify", "quick"), ("u_tmono", "quick")],
+    "C07": [("u_munify", "quick"), ("u_msubst", "quick"), ("u_mcall", "quick"), ("u_tmono", "quick")],
     "C15": [("u_art", "quick"), ("u_link", "quick"), ("u_deprec", "quick")],
     "C09": [("u_dcefx", "quick"), ("u_ceffect", "quick")],
     "C11": [("u_bp", "quick"), ("u_pratt", "quick")],
